@@ -100,7 +100,28 @@ def run(chk):
         ranking = np.array(ranking, dtype=int)
         lo = min(min(p[:2]) for p in pts)
         hi = max(max(p[:2]) for p in pts)
+        # the data handed to the constructor (used for plotting) need not be the data the question is about
+        ctor_data = info
+        if rng.random() < 0.3:
+            if kind == "grid":
+                ctor_data = np.zeros((2, (side + 1 + int(rng.integers(0, 3))) ** 2))
+            else:
+                ctor_data = info.iloc[::-1].reset_index(drop=True).copy()
+                for cname in ("x", "y") + (("z",) if kind == "df3" else ()):
+                    ctor_data[cname] = (ctor_data[cname].astype(float) * 2 + 3)
+            chk.count("constructed_on_other_data")
+        # sensors whose position is not known (NaN in a coordinate column) lie on neither side: they are 'out', never 'in'
+        nan_rows = set()
+        if kind in ("df2", "df3") and info["x"].dtype.kind == "f" and rng.random() < 0.25:
+            info = info.copy()
+            for i_ in rng.choice(n, size=int(rng.integers(1, min(3, n) + 1)), replace=False):
+                info.loc[int(i_), ["x", "y"][int(rng.integers(0, 2))]] = np.nan
+                nan_rows.add(int(i_))
+            pts = [tuple(0.0 if np.isnan(v) else v for v in (float(info[c][i]) for c in (("x", "y", "z") if kind == "df3" else ("x", "y")))) for i in range(n)]
+            chk.count("nan-coordinates")
         shapes = ["circle", "ellipse", "parabola", "line", "polygon"] if kind != "df3" else ["cylinder"]
+        if nan_rows:
+            shapes = [x for x in shapes if x not in ("line",)]
         sh = shapes[int(rng.integers(0, len(shapes)))]
         loc = "in" if rng.random() < 0.5 else "out"
         P = {}
@@ -108,14 +129,14 @@ def run(chk):
         ptq = [tuple(fr(v) for v in p) for p in pts]
         if sh == "circle":
             P = {"center_x": dy(rng, int(lo), int(hi)), "center_y": dy(rng, int(lo), int(hi)), "radius": dy(rng, 0, max(1, int(hi - lo)))}
-            mk = lambda l: Circle(P["center_x"], P["center_y"], P["radius"], loc=l, data=info, **kw)
+            mk = lambda l: Circle(P["center_x"], P["center_y"], P["radius"], loc=l, data=ctor_data, **kw)
             inside = [(p[0] - fr(P["center_x"])) ** 2 + (p[1] - fr(P["center_y"])) ** 2 <= fr(P["radius"]) ** 2 for p in ptq]
             shape_q = f"(circle_in {C.cq(fr(P['center_x']))} {C.cq(fr(P['center_y']))} {C.cq(fr(P['radius']))})"
         elif sh == "ellipse":
             ang = float(rng.choice([0.0, 30.0, 45.0, 90.0, 120.0, 180.0, float(rng.integers(-180, 181))]))
             P = {"center_x": dy(rng, int(lo), int(hi)), "center_y": dy(rng, int(lo), int(hi)), "width": dy(rng, 1, max(2, int(hi - lo))) + 0.25,
                  "height": dy(rng, 1, max(2, int(hi - lo))) + 0.25, "angle": ang}
-            mk = lambda l: Ellipse(P["center_x"], P["center_y"], P["width"], P["height"], angle=P["angle"], loc=l, data=info, **kw)
+            mk = lambda l: Ellipse(P["center_x"], P["center_y"], P["width"], P["height"], angle=P["angle"], loc=l, data=ctor_data, **kw)
             a = P["angle"] * np.pi / 180
             c_, s_ = fr(np.cos(a)), fr(np.sin(a))
             hw, hh = fr(P["width"] / 2), fr(P["height"] / 2)
@@ -130,12 +151,12 @@ def run(chk):
             shape_q = f"(ellipse_in {C.cq(fr(P['center_x']))} {C.cq(fr(P['center_y']))} {C.cq(hw)} {C.cq(hh)} {C.cq(c_)} {C.cq(s_)})"
         elif sh == "parabola":
             P = {"h": dy(rng, int(lo), int(hi)), "k": dy(rng, int(lo), int(hi)), "a": dy(rng, -2, 2, 8)}
-            mk = lambda l: Parabola(P["h"], P["k"], P["a"], loc=l, data=info, **kw)
+            mk = lambda l: Parabola(P["h"], P["k"], P["a"], loc=l, data=ctor_data, **kw)
             inside = [fr(P["a"]) * (p[0] - fr(P["h"])) ** 2 <= p[1] - fr(P["k"]) for p in ptq]
             shape_q = f"(parabola_in {C.cq(fr(P['h']))} {C.cq(fr(P['k']))} {C.cq(fr(P['a']))})"
         elif sh == "line":
             P = {"x1": dy(rng, int(lo), int(hi)), "x2": dy(rng, int(lo), int(hi)), "y1": dy(rng, int(lo), int(hi)), "y2": dy(rng, int(lo), int(hi))}
-            mk = lambda l: Line(P["x1"], P["x2"], P["y1"], P["y2"], data=info, **kw)
+            mk = lambda l: Line(P["x1"], P["x2"], P["y1"], P["y2"], data=ctor_data, **kw)
             loc = "line"
             cross = [(p[1] - fr(P["y1"])) * (fr(P["x2"]) - fr(P["x1"])) - (fr(P["y2"]) - fr(P["y1"])) * (p[0] - fr(P["x1"])) for p in ptq]
             inside = [c < 0 for c in cross]      # strictly right of the directed line = constrained
@@ -162,7 +183,7 @@ def run(chk):
                         "uint16-array": np.array(poly).astype(np.uint16)}[form]
             chk.count("polygon-vertices:" + form)
             P = {"xy_coords": poly, "vertex_container": form}
-            mk = lambda l: Polygon(poly_arg, loc=l, data=info, **kw)
+            mk = lambda l: Polygon(poly_arg, loc=l, data=ctor_data, **kw)
             pq = [(fr(a), fr(b)) for a, b in poly]
             if any(pq[i][1] == pq[(i + 1) % m][1] and False for i in range(m)):
                 pass
@@ -178,7 +199,7 @@ def run(chk):
         else:
             ax = ["Z_axis", "Y_axis", "X_axis"][int(rng.integers(0, 3))]
             P = {"center_x": dy(rng, -3, 3), "center_y": dy(rng, -3, 3), "center_z": dy(rng, -3, 3), "radius": dy(rng, 1, 5), "height": dy(rng, 0, 8), "axis": ax}
-            mk = lambda l: Cylinder(P["center_x"], P["center_y"], P["center_z"], P["radius"], P["height"], loc=l, axis=ax, data=info, **kw)
+            mk = lambda l: Cylinder(P["center_x"], P["center_y"], P["center_z"], P["radius"], P["height"], loc=l, axis=ax, data=ctor_data, **kw)
             cx, cy, cz, r_, h_ = (fr(P[k]) for k in ("center_x", "center_y", "center_z", "radius", "height"))
             inside = []
             for x, y, z in ptq:
@@ -189,7 +210,10 @@ def run(chk):
                 else:
                     inside.append((y - cy) ** 2 + (z - cz) ** 2 <= r_ ** 2 and cx - h_ / 2 <= x <= cx + h_ / 2)
             shape_q = f"(cylinder_in {C.cq(cx)} {C.cq(cy)} {C.cq(cz)} {C.cq(r_)} {C.cq(h_)} {'Ax' + ax[0]})"
-        case = {"coords": kind, "points": [list(p) for p in pts] if kind != "grid" else f"grid side {side}", "shape": sh, "params": P, "loc": loc,
+        for i_ in nan_rows:
+            inside[i_] = False
+            tie.discard(i_)
+        case = {"coords": kind, "points": [list(p) for p in pts] if kind != "grid" else f"grid side {side}", "shape": sh, "params": P, "loc": loc, "nan_rows": sorted(nan_rows),
                 "ranking": ranking.tolist(), "int_dataframe": bool(kind != "grid" and info["x"].dtype.kind in "iu"), "dtype": "float64" if kind == "grid" else str(info["x"].dtype)}
         # ---- run the implementation (both loc values for the partition clause)
         got = {}
@@ -241,6 +265,8 @@ def run(chk):
             if sorted(got["in"] + got["out"]) != sorted(rk):
                 chk.violation("impl", f"{sh}-partition", f"{sh}: 'in' {got['in']} and 'out' {got['out']} do not partition the ranking {rk}", {**case, "observed": got})
         # ---- model expression for the requested loc
+        if nan_rows:
+            continue            # positions that are not numbers have no rational model: the exact oracle above judges these cases
         if kind == "grid":
             pt = f"(grid_point {side})"
         elif kind == "df2":
